@@ -122,6 +122,18 @@ def run_one(args):
                                 out['problems'].append(('consume-returned-other-tag', op[1], tag))
                         elif op[0] == 'cancel-own' and mine:
                             ch.basic.cancel(mine.pop(0))
+                        elif op[0] == 'consume-when-cancelling':
+                            # re-use of a client-named tag: subscribe again under the tag another thread is just cancelling
+                            # (the Basic.Cancel has reached the broker, so that thread is inside cancel())
+                            for _ in range(2000):
+                                if 'Basic.Cancel' in broker.names_in(ch.channel_id):
+                                    break
+                                amqpstorm.channel.time.sleep(0.001)
+                            box = [None]
+                            tag = ch.basic.consume(make_cb(box), 'cq', consumer_tag=op[1], no_ack=True)
+                            box[0] = tag
+                            mine.append(tag)
+                            established.add(tag)
                     except amqpstorm.AMQPError as why:
                         out['problems'].append(('op-raised', op, repr(why)[:60]))
                 done['adders'] += 1
@@ -199,14 +211,14 @@ def run_one(args):
     BaseChannel.add_consumer_tag, BaseChannel.remove_consumer_tag = add_tag, remove_tag
     try:
         with tr:
-            ctx = vrt.run_scenario(scenario, refbroker.factory(policy), seed=seed, p_preempt=sc.get('p_preempt', 0.15), p_jump=0.1, fair_time=sc.get('fair_time', False),
+            ctx = vrt.run_scenario(scenario, refbroker.factory(policy), seed=seed, p_preempt=sc.get('p_preempt', 0.15), p_jump=0.1, fair_time=sc.get('fair_time', False), p_stall=sc.get('p_stall', 0.0),
                                    repo_path=str(common.REPO))
     finally:
         BaseChannel.add_consumer_tag, BaseChannel.remove_consumer_tag = orig_add, orig_remove
     out['abort'] = ctx.sched.abort_reason
     out['preemptions'] = ctx.sched.preemptions
     out['thread_excs'] = [(t.name, repr(t.exc)) for t in ctx.sched.threads if t.exc is not None and t.kind == 'app']
-    out['lines'], out['expect'] = build_trace(ctx.sched, ref)
+    out['lines'], out['expect'] = ([], []) if sc.get('reuse') else build_trace(ctx.sched, ref)
     return out
 
 
@@ -464,6 +476,14 @@ def check(rep):
     for _ in range(80 if not thorough else 1500):
         sc = {'adders': [[('consume', 'ct1'), ('cancel-own',)]], 'stopper': rng.choice([0.1, 0.15, 0.2, 0.25, 0.3, 0.35]), 'broker_cancels': 0,
               'feeds': 0, 'consumer_thread': False, 'single_adder': True, 'fair_time': rng.random() < 0.5, 'p_preempt': 0.3}
+        jobs.append((sc, rng.randrange(1 << 30)))
+    # a client-named tag is re-used by one thread while another thread is cancelling the previous consumer of that name:
+    # at quiescence the client must list what the broker serves (judged by the monitor only; the transition system of
+    # Props/C14 is about tags used once, the re-use refinement is Lemmas/TagReuse)
+    for _ in range(60 if not thorough else 1200):
+        sc = {'adders': [[('consume', 'w'), ('cancel-own',)], [('consume-when-cancelling', 'w')]], 'stopper': None, 'broker_cancels': 0,
+              'feeds': rng.randint(0, 2), 'consumer_thread': False, 'reuse': True, 'fair_time': rng.random() < 0.5,
+              'p_preempt': rng.choice([0.15, 0.3]), 'p_stall': 0.5}
         jobs.append((sc, rng.randrange(1 << 30)))
     # a consumer is added on a queue with a backlog while another thread is consuming: the first delivery
     # follows ConsumeOk at once (is the callback bound before anybody can dispatch it?), under heavy pre-emption
